@@ -891,7 +891,11 @@ class Gen:
         if c == 16:
             objs = []
             for _ in range(r.n(1, 2)):
-                objs.append("%s(%s)" % (self.name(ARR_NAMES), self.int_expr(1)) if r.chance(70)
+                objs.append(r.pick(["%s(%s)" % (self.name(ARR_NAMES), self.int_expr(1)),
+                                    "%s(0:%s)" % (self.name(ARR_NAMES), self.int_expr(1)),
+                                    "%s(-1:1, %s)" % (self.name(ARR_NAMES), self.small_int()),
+                                    "%s(%s:%s, 2:n)" % (self.name(ARR_NAMES), self.small_int(), self.int_expr(0))])
+                            if r.chance(70)
                             else "%s%%%s(%s)" % (self.name(OBJ_NAMES), self.name(COMP_NAMES), self.small_int()))
             opt = r.pick(["", "", ", stat = ios", ", stat = ios, errmsg = msg", ", source = %s" % self.name(ARR_NAMES)])
             if self.o.f08 and r.chance(20):
